@@ -790,7 +790,9 @@ func c11Mutate(r *vrng, o *vj, depth int) *vj {
 	case 4:
 		c.O = append(c.O, kv(pick(r, []string{"bogus", "Type", "users", "received", "sessionslist", "all"}), c11RandomValue(r, 2)))
 	case 5:
-		c.O[i].K = strings.ToUpper(c.O[i].K[:1]) + c.O[i].K[1:]
+		if len(c.O[i].K) > 0 {
+			c.O[i].K = strings.ToUpper(c.O[i].K[:1]) + c.O[i].K[1:]
+		}
 	case 6:
 		c.O[i].V = ja(c.O[i].V)
 	case 7, 8: // go deeper
